@@ -735,6 +735,7 @@ func (vc *VC) execInstr(fr *Frame, b *ssa.BasicBlock, ins ssa.Instruction) {
 			} else {
 				vc.smoke(fmt.Sprintf("return%d", len(fr.rets)+1))
 			}
+			vc.retBlock, vc.retInstr = b, x
 			vc.rootReturn(fr, vals)
 		}
 		fr.rets = append(fr.rets, retInfo{st: vc.st.clone(), vals: vals})
@@ -1231,7 +1232,14 @@ func (vc *VC) rootReturn(fr *Frame, results []SV) {
 	}
 	eargs := append(append([]SV{}, vc.clauseArgsEntry(fr)...), results...)
 	for i, en := range fi.C.Ensures {
-		g := vc.evalClause(en.GoName, fi.C.Pkg, eargs, vc.st, vc.entry)
+		ea := eargs
+		if len(en.Locals) > 0 && vc.retBlock != nil {
+			ea = append([]SV{}, eargs...)
+			for _, n := range en.Locals {
+				ea = append(ea, vc.valueAt(fr, vc.retBlock, vc.retInstr, n, nil))
+			}
+		}
+		g := vc.evalClause(en.GoName, fi.C.Pkg, ea, vc.st, vc.entry)
 		tag := ""
 		if len(en.Tags) > 0 {
 			tag = "[" + strings.Join(en.Tags, ",") + "]"
